@@ -79,16 +79,18 @@ def reset_state():
 def gen_plan(prop, run_seed, tier):
     F = Forks(run_seed)
     w, s, f = F.fork("workload"), F.fork("schedule"), F.fork("faults")
-    n = w.choice([0, 1, 2, 3, 3, 4, 5, 6, 7, 8, 10, 12, 14])
+    n = w.choice([0, 1, 2, 3, 3, 4, 5, 6, 7, 8, 10, 12, 14, 16, 18])
     if w.random() < 0.04:  # more samples (and pairs) than any plausible block size
         n = w.choice([24, 34])
     elif w.random() < 0.012:  # indices beyond what one (signed) byte holds
         n = w.choice([131, 140])
     pairs = n * (n - 1) // 2
     n_chunks = w.choice([1, 2, 3, max(1, pairs // 2), max(1, pairs - 1), max(1, pairs), pairs + 1, pairs + 3, w.randint(1, max(2, pairs + 2))])
+    if n <= 20 and w.random() < 0.45:
+        n_chunks = w.randint(1, min(60, pairs + 3))  # any chunk count: boundary arithmetic differs per (pairs, n_chunks)
     if n > 100:
         n_chunks = w.choice([1, 2, 3, 7])
-    elif n > 14:
+    elif n > 20:
         n_chunks = w.choice([1, 3, 7, 33, 65])
     k_files = 1 if n < 2 else w.randint(1, min(3, n))
     cuts = sorted(w.sample(range(1, n), k_files - 1)) if k_files > 1 else []
